@@ -35,8 +35,9 @@ CLAIMED = {
          "the bookkeeping exact. Tied to /repo by comparing the full bookkeeping after every edit of random histories, plus an "
          "implementation-side check of the property (incl. labels of to_qubo/to_quso/to_pubo/to_puso).",
     note="Trusted: Coq kernel + vm_compute; no axioms; hand-written model of _pubomatrix.py/_bo_parentclass.py/_dict_arithmetic.py "
-         "(after the repairs D1, D2, D9, D11 listed in known_findings.txt); harness. The ancilla-name clause is carried by C02/C03, "
-         "the reduced-form label clause by C01.",
+         "(after the repairs D1, D2, D9, D11 listed in known_findings.txt); harness. C14_constraint_step / "
+         "C14_reachable_with_constraints extend the invariant to histories that contain the constraint methods of PCBO / PCSO; "
+         "C14_ancilla_names (= C02_ancilla_bound) is the ancilla-name clause; the reduced-form label clause is C01's.",
     technique="Coq proof (invariant by induction over edit histories) + model/implementation correspondence", ref="§5 C14"),
  "C13": dict(
     text="Coq theorems C13_step / C13_inv: for a machine with three live collections and all listed operations (construction, "
@@ -181,8 +182,8 @@ CLAIMED = {
          "the abstract theorem for any number of comparison constraints on a PCBO (independence from later ancillas comes from "
          "C02_ancilla_bound); C08_sequence_reduced continues through any degree reduction and convert_solution. Not proved as "
          "one statement: sequences mixing logic constraints and the PCSO variant of the sequence theorem; those workflows "
-         "are covered by the correspondence run and the oracle. Inv of the constrained model is a hypothesis of the reduced "
-         "form (the C14 invariant is proved for the edits of C14, not for the constraint methods).",
+         "are covered by the correspondence run and the oracle. The reduced form assumes only the C14 invariant of the "
+         "objective model (C14_constraint_step carries it through the constraint methods).",
     technique="Coq proof (exchange argument over penalties, composed with the C01 and C02 theorems) + model/implementation correspondence", ref="§5 C08"),
  "C11": dict(
     text="Coq theorems about the Gallina transcription of both C kernels and of the Python front end's packaging: "
